@@ -11,7 +11,8 @@
 //
 // M  model tie (emit.go): a sample of the inputs with the observed result (class, line, column, value,
 //
-//	token stream) as Gallina terms for coq/Corr/CorrC06.v.
+//	token stream) as Gallina terms for coq/Corr/CorrC06.v; for the resolve stage the Enum[...] and
+//	T[Deferred(...)] inputs with what Context.ParseType made of them (genresolve.go, impl.go resolveObs).
 package main
 
 import (
@@ -227,6 +228,9 @@ func run(cfg *lib.Config, res *lib.Result, rng *lib.Rng, pool *Pool) {
 					em.nbad++
 				}
 				em.want(in)
+			}
+			if f.kind == "parsetype" {
+				em.wantResolve(in, bad && len(em.rbad) < 20)
 			}
 			if total%9973 == 1 {
 				res.Sample(map[string]interface{}{"input": in, "observed": o})
@@ -449,7 +453,10 @@ func families(cfg *lib.Config, rng *lib.Rng) []family {
 			fams = append(fams, family{name: name, kind: "parsetype", inputs: inputs, collect: true})
 		}
 		addc("resolve-listform", resolveListForm(th))
+		addc("resolve-args34", resolveArgs34(th))
+		addc("resolve-enum-args", resolveEnumArgs(th))
 		addc("resolve-deferred", resolveDeferred())
+		addc("resolve-deferred-names", resolveDeferredNames())
 		addc("resolve-hash", resolveHash(th, rng))
 		var r2 []string
 		for i := 0; i < sc(15000, 300000); i++ {
